@@ -46,6 +46,15 @@ Observes(p, what) ==   \* which observations the host configuration of the case 
     [] what = "vars"   -> p.storer # "default"
     [] OTHER -> TRUE
 
+\* The storer write log is compared by EFFECT: a write that stores the value the variable already
+\* has changes nothing and is not part of any property (the property fixes what variables hold and
+\* that a failing statement changes none, not how often the same value is written).
+RECURSIVE EffWrites(_, _, _)
+EffWrites(st, w, i) ==
+  IF i > Len(w) THEN <<>>
+  ELSE IF w[i].var \in DOMAIN st /\ st[w[i].var] = w[i].val THEN EffWrites(st, w, i + 1)
+  ELSE <<w[i]>> \o EffWrites(IF w[i].var \in DOMAIN st THEN [st EXCEPT ![w[i].var] = w[i].val] ELSE st, w, i + 1)
+
 Report(e, field, fields, exp, got, pre) ==
   IF Len(bad) < 40
   THEN Append(bad, [line |-> l, id |-> P.id, ev |-> e.ev, field |-> field, fields |-> fields,
@@ -69,7 +78,8 @@ StepNext(e) ==
       mism == (IF o.out # t.out THEN <<"out">> ELSE <<>>)
            \o (IF o.ccalls # t.ccalls THEN <<"ccalls">> ELSE <<>>)
            \o (IF o.fcalls # t.fcalls THEN <<"fcalls">> ELSE <<>>)
-           \o (IF Observes(P, "writes") /\ o.writes # t.writes THEN <<"writes">> ELSE <<>>)
+           \o (IF Observes(P, "writes") /\ EffWrites(pre.store, o.writes, 1) # EffWrites(pre.store, t.writes, 1)
+               THEN <<"writes">> ELSE <<>>)
            \o (IF Observes(P, "vars") /\ o.vars # VarsArr(P, t.store) THEN <<"vars">> ELSE <<>>)
            \o (IF o.visits # VisitsArr(P, t.visits) THEN <<"visits">> ELSE <<>>)
       expOf(f) == CASE f = "out" -> t.out [] f = "ccalls" -> t.ccalls [] f = "fcalls" -> t.fcalls
